@@ -24,7 +24,7 @@ import (
 func init() {
 	Registry["C14"] = &Check{
 		Scenarios: c14Scenarios,
-		Rule: "events: CloseNotify requested {inside the first handler, by a free application thread at every possible instant (in particular while the reader is parked in Read), twice (handler + thread), after termination}; two messages delivered in three fragments (one fragment boundary inside the first header); termination by {peer EOF, transport read error, a read error that reports itself as temporary (once), EOF / read error returned by the same Read that delivers the last message (n > 0 with err != nil), undecodable header followed by trailing bytes, local Close from a free thread at every instant, a handler panic on the second message (recovered by the serve loop)}; an observer thread records the instant the channel closes. The requesting / closing / observing threads and the peer are environment threads, so every ordering of their steps against the library's steps is explored even at preemption bound 0; library preemption bound 2 (quick) / unbounded (thorough). The same request modes {handler, thread, after} x terminations {EOF, undecodable input, local Close} on a multistream (in-memory SCTP) connection, where CloseNotify installs a read-error handler. Also a connection accepted by a Server with ReadTimeout 2 s that idles into its read deadline (virtual clock), CloseNotify requested {in the handler, by a thread, not at all}. Also sm.Client with the watchdog enabled followed by a quiet peer close, preceded by 0, 1, 2 or 3 unsolicited success DWAs (in one segment or one segment each) (virtual time, horizon 12 s).",
+		Rule: "events: CloseNotify requested {inside the first handler, by a free application thread at every possible instant (in particular while the reader is parked in Read), twice (handler + thread), after termination}; two messages delivered in three fragments (one fragment boundary inside the first header); termination by {peer EOF, transport read error, a read error that reports itself as temporary (once), EOF / read error returned by the same Read that delivers the last message (n > 0 with err != nil), undecodable header followed by trailing bytes, local Close from a free thread at every instant, a handler panic on the second message (recovered by the serve loop)}; an observer thread records the instant the channel closes. The requesting / closing / observing threads and the peer are environment threads, so every ordering of their steps against the library's steps is explored even at preemption bound 0; library preemption bound 2 (quick) / unbounded (thorough). The same request modes {handler, thread, after} x terminations {EOF, undecodable input, local Close} on a multistream (in-memory SCTP) connection, where CloseNotify installs a read-error handler. Also a local Close while an application goroutine's Write is stuck inside the transport (the peer has stopped reading). Also a connection accepted by a Server with ReadTimeout 2 s that idles into its read deadline (virtual clock), CloseNotify requested {in the handler, by a thread, not at all}. Also sm.Client with the watchdog enabled followed by a quiet peer close, preceded by 0, 1, 2 or 3 unsolicited success DWAs (in one segment or one segment each) (virtual time, horizon 12 s).",
 		Assume: []string{"data-race freedom between visible operations (audited separately with -race)", "io.Pipe is modelled by vsched.Pipe (Write blocks until the data is consumed or either end is closed)"},
 		QuickBudget: 100, ThoroughBudget: 1500,
 	}
@@ -77,6 +77,7 @@ func c14Scenarios(tier string) []*Scenario {
 	}
 	for _, req := range []string{"handler", "thread", "none"} {
 		out = append(out, c14ReadTimeout(req, bound))
+		out = append(out, c14CloseWhileWriteBlocked(req, bound))
 	}
 	out = append(out, c14Watchdog(bound), c14WatchdogStray(1, false, bound), c14WatchdogStray(2, true, bound), c14WatchdogStray(2, false, bound), c14WatchdogStray(3, true, bound))
 	// client handshakes that end exactly at the deadline: whatever the outcome, once the transport
@@ -543,4 +544,82 @@ func c14ReadTimeout(req string, bound int) *Scenario {
 	}
 	return &Scenario{Name: "closenotify-read-timeout/" + req, Body: body, Check: check, Bound: bound, Horizon: 10 * time.Second,
 		Outcome: func(s *vs.Sched) string { return fmt.Sprint(c14st.handled, c14st.conn.ClosedAt, len(c14st.chs)) }}
+}
+
+// c14CloseWhileWriteBlocked: the peer has stopped reading, so a Write of an application goroutine
+// is stuck inside the transport; the application then closes the connection locally. The Close
+// must go through: transport closed, CloseNotify fired, the stuck Write returns an error, every
+// goroutine of the connection exits.
+func c14CloseWhileWriteBlocked(req string, bound int) *Scenario {
+	m1 := c14msg(1)
+	var writeReturned bool
+	var writeErr error
+	body := func() {
+		st := &c14State{}
+		c14st = st
+		writeReturned, writeErr = false, nil
+		conn := vnet.NewConn("A")
+		conn.Pieces = 1
+		st.conn = conn
+		var dc diam.Conn
+		request := func(c diam.Conn) {
+			ch := c.(diam.CloseNotifier).CloseNotify()
+			st.chs = append(st.chs, ch)
+		}
+		mux := diam.NewServeMux()
+		mux.HandleFunc("ALL", func(c diam.Conn, m *diam.Message) {
+			st.handled = append(st.handled, m.Header.HopByHopID)
+			if req == "handler" {
+				request(c)
+			}
+		})
+		c, err := diam.NewConn(conn, "peer", mux, dict.Default)
+		if err != nil {
+			panic(err)
+		}
+		dc = c
+		conn.Deliver(m1)
+		if req == "thread" {
+			vs.GoNamed("app-request", true, func() { request(dc) })
+		}
+		conn.WriteBlocked = true
+		vs.GoNamed("app-writer", false, func() {
+			m := diam.NewMessage(280, 0x80, 0, 50, 50, dict.Default)
+			m.NewAVP(avp.OriginHost, avp.Mbit, 0, datatype.DiameterIdentity("cli"))
+			_, writeErr = m.WriteTo(dc)
+			writeReturned = true
+		})
+		vs.GoNamed("app-close", false, func() {
+			vs.BlockObj("wait-writer-stuck", conn, func() bool { return conn.InWrite > 0 })
+			st.termIssued = true
+			vs.Event("application: local Close while a Write is stuck in the transport")
+			dc.Close()
+		})
+	}
+	check := func(s *vs.Sched) string {
+		st := c14st
+		var v []string
+		if p := s.Panics(); len(p) > 0 {
+			v = append(v, "panic: "+strings.Join(p, "; "))
+		}
+		if !st.conn.Closed {
+			v = append(v, "local Close while a Write is blocked in the transport: the transport was never closed")
+		}
+		for i, ch := range st.chs {
+			if !ch.IsClosed() {
+				v = append(v, fmt.Sprintf("CloseNotify channel %d was never closed after the local Close", i))
+			}
+		}
+		if !writeReturned {
+			v = append(v, "the blocked Write never returned")
+		} else if writeErr == nil {
+			v = append(v, "the blocked Write reported success although the connection was closed under it")
+		}
+		if b := s.BlockedLib(); len(b) > 0 {
+			v = append(v, "goroutines still blocked at the end: "+strings.Join(b, ", "))
+		}
+		return strings.Join(v, " | ")
+	}
+	return &Scenario{Name: "closenotify-local-close-while-write-blocked/" + req, Body: body, Check: check, Bound: bound, Horizon: 10 * time.Second,
+		Outcome: func(s *vs.Sched) string { return fmt.Sprint(c14st.conn.Closed, writeReturned, writeErr != nil) }}
 }
